@@ -52,41 +52,123 @@ theorem gen_append_value (M : Mem) (A : Arr) (r : RArr) (h : Rep M A r) (bv j : 
     (fuel : Nat) (hf : r.n < fuel) :
     SimR M A (SeqArr.appendValue fuel M A (some (bv, j))) (Raw.append r x)
       (fun A' => A'.begin.map (fun q => (q.1, r.n))) := by
-  unfold SeqArr.appendValue Raw.append SimR
-  simp only [pdiff_rep M A r h, reserve2_out M A r h bv j hnot]
-  rcases reserve_run M A r h (r.n + 1) fuel hf with ⟨e1, e2⟩ | ⟨M1, A1, r1, e1, e2, hrep1, hbrk, hfr, hown, hn⟩
-  · simp [e1, e2, Sim]
-  · simp only [e1, e2, Option.map_some]
-    have hv1 : M1.blocks bv = some vcs := by rw [hfr bv hbv hnot]; exact hv
-    simp only [rd_at M1 bv j vcs hv1, hx]
-    obtain ⟨hcap1, hr1⟩ := hrep1
-    cases hc : r1.cells with
-    | none =>
-      rw [hc] at hr1
-      simp [hr1.2.1, con, Sim]
-    | some cs1 =>
-      rw [hc] at hr1
-      obtain ⟨b1, hbk1, hb1, he1, hblk1⟩ := hr1
-      simp only [he1, con_at M1 b1 r1.n cs1 x hblk1]
-      cases hcon : construct cs1 r1.n x with
-      | none => simp [Sim]
-      | some cs' =>
-        simp only [Option.map_some, padd, Sim]
-        have hb1ne : ∀ b', b' < M.brk → ¬ own A b' → b' ≠ b1 := by
-          intro b' h1 h2 e
-          rcases hown b1 ⟨0, hb1⟩ with h3 | h3
-          · exact h2 (e ▸ h3)
-          · omega
-        refine ⟨⟨⟨hcap1, ?_⟩, hbrk, ?_, ?_⟩, ?_⟩
-        · simp only []
-          exact ⟨b1, hbk1, hb1, rfl, by simp [upd_same]⟩
-        · intro b' h1 h2
-          simp [upd_ne _ _ _ _ (hb1ne b' h1 h2), hfr b' h1 h2]
-        · intro b' hb'
-          exact hown b' hb'
-        · intro t ht
-          cases ht
-          simp [hb1, hn]
+  first
+  | (unfold SeqArr.appendValue Raw.append SimR
+     simp only [pdiff_rep M A r h, reserve2_out M A r h bv j hnot]
+     rcases reserve_run M A r h (r.n + 1) fuel hf with ⟨e1, e2⟩ | ⟨M1, A1, r1, e1, e2, hrep1, hbrk, hfr, hown, hn⟩
+     · simp [e1, e2, Sim]
+     · simp only [e1, e2, Option.map_some]
+       have hv1 : M1.blocks bv = some vcs := by rw [hfr bv hbv hnot]; exact hv
+       simp only [rd_at M1 bv j vcs hv1, hx]
+       obtain ⟨hcap1, hr1⟩ := hrep1
+       cases hc : r1.cells with
+       | none =>
+         rw [hc] at hr1
+         simp [hr1.2.1, con, Sim]
+       | some cs1 =>
+         rw [hc] at hr1
+         obtain ⟨b1, hbk1, hb1, he1, hblk1⟩ := hr1
+         simp only [he1, con_at M1 b1 r1.n cs1 x hblk1]
+         cases hcon : construct cs1 r1.n x with
+         | none => simp [Sim]
+         | some cs' =>
+           simp only [Option.map_some, padd, Sim]
+           have hb1ne : ∀ b', b' < M.brk → ¬ own A b' → b' ≠ b1 := by
+             intro b' h1 h2 e
+             rcases hown b1 ⟨0, hb1⟩ with h3 | h3
+             · exact h2 (e ▸ h3)
+             · omega
+           refine ⟨⟨⟨hcap1, ?_⟩, hbrk, ?_, ?_⟩, ?_⟩
+           · simp only []
+             exact ⟨b1, hbk1, hb1, rfl, by simp [upd_same]⟩
+           · intro b' h1 h2
+             simp [upd_ne _ _ _ _ (hb1ne b' h1 h2), hfr b' h1 h2]
+           · intro b' hb'
+             exact hown b' hb'
+           · intro t ht
+             cases ht
+             simp [hb1, hn]
+    )
+  | -- the shape with a fast path that skips `reserve` when there is spare capacity
+    (unfold SeqArr.appendValue Raw.append SimR
+     simp only [pdiff_rep M A r h]
+     by_cases hfast : (!(A.begin).isSome || decide (r.n ≥ A.cap)) = true
+     · simp only [hfast, if_true, reserve2_out M A r h bv j hnot]
+       rcases reserve_run M A r h (r.n + 1) fuel hf with ⟨e1, e2⟩ | ⟨M1, A1, r1, e1, e2, hrep1, hbrk, hfr, hown, hn⟩
+       · simp [e1, e2, Sim]
+       · simp only [e1, e2, Option.map_some]
+         have hv1 : M1.blocks bv = some vcs := by rw [hfr bv hbv hnot]; exact hv
+         simp only [rd_at M1 bv j vcs hv1, hx]
+         obtain ⟨hcap1, hr1⟩ := hrep1
+         cases hc : r1.cells with
+         | none =>
+           rw [hc] at hr1
+           simp [hr1.2.1, con, Sim]
+         | some cs1 =>
+           rw [hc] at hr1
+           obtain ⟨b1, hbk1, hb1, he1, hblk1⟩ := hr1
+           simp only [he1, con_at M1 b1 r1.n cs1 x hblk1]
+           cases hcon : construct cs1 r1.n x with
+           | none => simp [Sim]
+           | some cs' =>
+             simp only [Option.map_some, padd, Sim]
+             have hb1ne : ∀ b', b' < M.brk → ¬ own A b' → b' ≠ b1 := by
+               intro b' h1 h2 e
+               rcases hown b1 ⟨0, hb1⟩ with h3 | h3
+               · exact h2 (e ▸ h3)
+               · omega
+             refine ⟨⟨⟨hcap1, ?_⟩, hbrk, ?_, ?_⟩, ?_⟩
+             · simp only []
+               exact ⟨b1, hbk1, hb1, rfl, by simp [upd_same]⟩
+             · intro b' h1 h2
+               simp [upd_ne _ _ _ _ (hb1ne b' h1 h2), hfr b' h1 h2]
+             · intro b' hb'
+               exact hown b' hb'
+             · intro t ht
+               cases ht
+               simp [hb1, hn]
+     · have hb' : A.begin.isSome = true ∧ r.n < A.cap := by
+         cases hA : A.begin with
+         | none => simp [hA] at hfast
+         | some q => simp [hA] at hfast; exact ⟨rfl, by omega⟩
+       obtain ⟨-, e1⟩ := reserve_noop M A r h (r.n + 1) fuel hb'.1 (by omega)
+       have hrep1 := h
+       have hbrk : M.brk ≤ M.brk := Nat.le_refl _
+       have hfr : ∀ b, b < M.brk → ¬ own A b → M.blocks b = M.blocks b := fun _ _ _ => rfl
+       have hown : ∀ b, own A b → own A b ∨ M.brk ≤ b := fun _ hb => Or.inl hb
+       have hn : r.n = r.n := rfl
+       simp only [hfast, Bool.false_eq_true, if_false, e1]
+       have hv1 : M.blocks bv = some vcs := by rw [hfr bv hbv hnot]; exact hv
+       simp only [rd_at M bv j vcs hv1, hx]
+       obtain ⟨hcap1, hr⟩ := hrep1
+       cases hc : r.cells with
+       | none =>
+         rw [hc] at hr
+         simp [hr.2.1, con, Sim]
+       | some cs1 =>
+         rw [hc] at hr
+         obtain ⟨b1, hbk1, hb1, he1, hblk1⟩ := hr
+         simp only [he1, con_at M b1 r.n cs1 x hblk1]
+         cases hcon : construct cs1 r.n x with
+         | none => simp [Sim]
+         | some cs' =>
+           simp only [Option.map_some, padd, Sim]
+           have hb1ne : ∀ b', b' < M.brk → ¬ own A b' → b' ≠ b1 := by
+             intro b' h1 h2 e
+             rcases hown b1 ⟨0, hb1⟩ with h3 | h3
+             · exact h2 (e ▸ h3)
+             · omega
+           refine ⟨⟨⟨hcap1, ?_⟩, hbrk, ?_, ?_⟩, ?_⟩
+           · simp only []
+             exact ⟨b1, hbk1, hb1, rfl, by simp [upd_same]⟩
+           · intro b' h1 h2
+             simp [upd_ne _ _ _ _ (hb1ne b' h1 h2), hfr b' h1 h2]
+           · intro b' hb'
+             exact hown b' hb'
+           · intro t ht
+             cases ht
+             simp [hb1, hn]
+    )
 
 /-- `a.append(a[i])`: the translated `append(const T&)` with `value` = element `i < size` of the array itself is the model's
     `appendRef r i` — the element is read from the storage AFTER `reserve` (the private `reserve(size, ref)` re-bases the
@@ -95,41 +177,115 @@ theorem gen_append_value_alias (M : Mem) (A : Arr) (r : RArr) (h : Rep M A r) (b
     (hi : i < r.n) (fuel : Nat) (hf : r.n < fuel) :
     SimR M A (SeqArr.appendValue fuel M A (some (b, i))) (Raw.appendRef r i)
       (fun A' => A'.begin.map (fun q => (q.1, r.n))) := by
-  unfold SeqArr.appendValue Raw.appendRef SimR
-  simp only [pdiff_rep M A r h, reserve2_in M A r h b i hb hi, hi, if_true]
-  obtain ⟨cs, hcs⟩ : ∃ cs, r.cells = some cs := by
-    cases hc : r.cells with
-    | none => have := h.2; rw [hc] at this; omega
-    | some cs => exact ⟨cs, rfl⟩
-  rcases reserve_run M A r h (r.n + 1) fuel hf with ⟨e1, e2⟩ | ⟨M1, A1, r1, e1, e2, hrep1, hbrk, hfr, hown, hn⟩
-  · simp [e1, e2, Sim]
-  · obtain ⟨cs1, hc⟩ := reserve_cells_some r r1 cs hcs _ e1
-    obtain ⟨hcap1, hr1⟩ := hrep1
-    rw [hc] at hr1
-    obtain ⟨b1, hbk1, hb1, he1, hblk1⟩ := hr1
-    simp only [e1, e2, Option.bind_some, hb1, padd, Option.map_some, hc, Nat.zero_add, rd_at M1 b1 i cs1 hblk1, he1]
-    cases hrd : readCell cs1 i with
-    | none => simp [Sim]
-    | some v =>
-      simp only [hn, con_at M1 b1 r.n cs1 v hblk1]
-      cases hcon : construct cs1 r.n v with
-      | none => simp [Sim]
-      | some cs' =>
-        simp only [Option.map_some, Sim]
-        have hb1ne : ∀ b', b' < M.brk → ¬ own A b' → b' ≠ b1 := by
-          intro b' h1 h2 e
-          rcases hown b1 ⟨0, hb1⟩ with h3 | h3
-          · exact h2 (e ▸ h3)
-          · omega
-        refine ⟨⟨⟨hcap1, ?_⟩, hbrk, ?_, ?_⟩, ?_⟩
-        · simp only []
-          exact ⟨b1, hbk1, rfl, rfl, by simp [upd_same]⟩
-        · intro b' h1 h2
-          simp [upd_ne _ _ _ _ (hb1ne b' h1 h2), hfr b' h1 h2]
-        · rintro b' ⟨i', hi'⟩
-          exact hown b' ⟨i', by rw [hb1]; exact hi'⟩
-        · intro t ht
-          cases ht
-          simp [hb1, hn]
+  first
+  | (unfold SeqArr.appendValue Raw.appendRef SimR
+     simp only [pdiff_rep M A r h, reserve2_in M A r h b i hb hi, hi, if_true]
+     obtain ⟨cs, hcs⟩ : ∃ cs, r.cells = some cs := by
+       cases hc : r.cells with
+       | none => have := h.2; rw [hc] at this; omega
+       | some cs => exact ⟨cs, rfl⟩
+     rcases reserve_run M A r h (r.n + 1) fuel hf with ⟨e1, e2⟩ | ⟨M1, A1, r1, e1, e2, hrep1, hbrk, hfr, hown, hn⟩
+     · simp [e1, e2, Sim]
+     · obtain ⟨cs1, hc⟩ := reserve_cells_some r r1 cs hcs _ e1
+       obtain ⟨hcap1, hr1⟩ := hrep1
+       rw [hc] at hr1
+       obtain ⟨b1, hbk1, hb1, he1, hblk1⟩ := hr1
+       simp only [e1, e2, Option.bind_some, hb1, padd, Option.map_some, hc, Nat.zero_add, rd_at M1 b1 i cs1 hblk1, he1]
+       cases hrd : readCell cs1 i with
+       | none => simp [Sim]
+       | some v =>
+         simp only [hn, con_at M1 b1 r.n cs1 v hblk1]
+         cases hcon : construct cs1 r.n v with
+         | none => simp [Sim]
+         | some cs' =>
+           simp only [Option.map_some, Sim]
+           have hb1ne : ∀ b', b' < M.brk → ¬ own A b' → b' ≠ b1 := by
+             intro b' h1 h2 e
+             rcases hown b1 ⟨0, hb1⟩ with h3 | h3
+             · exact h2 (e ▸ h3)
+             · omega
+           refine ⟨⟨⟨hcap1, ?_⟩, hbrk, ?_, ?_⟩, ?_⟩
+           · simp only []
+             exact ⟨b1, hbk1, rfl, rfl, by simp [upd_same]⟩
+           · intro b' h1 h2
+             simp [upd_ne _ _ _ _ (hb1ne b' h1 h2), hfr b' h1 h2]
+           · rintro b' ⟨i', hi'⟩
+             exact hown b' ⟨i', by rw [hb1]; exact hi'⟩
+           · intro t ht
+             cases ht
+             simp [hb1, hn]
 
+    )
+  | -- the shape with a fast path that skips `reserve` when there is spare capacity
+    (unfold SeqArr.appendValue Raw.appendRef SimR
+     simp only [pdiff_rep M A r h, hi, if_true]
+     obtain ⟨cs, hcs⟩ : ∃ cs, r.cells = some cs := by
+       cases hc : r.cells with
+       | none => have := h.2; rw [hc] at this; omega
+       | some cs => exact ⟨cs, rfl⟩
+     by_cases hfast : (!(A.begin).isSome || decide (r.n ≥ A.cap)) = true
+     · simp only [hfast, if_true, reserve2_in M A r h b i hb hi]
+       rcases reserve_run M A r h (r.n + 1) fuel hf with ⟨e1, e2⟩ | ⟨M1, A1, r1, e1, e2, hrep1, hbrk, hfr, hown, hn⟩
+       · simp [e1, e2, Sim]
+       · obtain ⟨cs1, hc⟩ := reserve_cells_some r r1 cs hcs _ e1
+         obtain ⟨hcap1, hr1⟩ := hrep1
+         rw [hc] at hr1
+         obtain ⟨b1, hbk1, hb1, he1, hblk1⟩ := hr1
+         simp only [e1, e2, Option.bind_some, hb1, padd, Option.map_some, hc, Nat.zero_add, rd_at M1 b1 i cs1 hblk1, he1]
+         cases hrd : readCell cs1 i with
+         | none => simp [Sim]
+         | some v =>
+           simp only [hn, con_at M1 b1 r.n cs1 v hblk1]
+           cases hcon : construct cs1 r.n v with
+           | none => simp [Sim]
+           | some cs' =>
+             simp only [Option.map_some, Sim]
+             have hb1ne : ∀ b', b' < M.brk → ¬ own A b' → b' ≠ b1 := by
+               intro b' h1 h2 e
+               rcases hown b1 ⟨0, hb1⟩ with h3 | h3
+               · exact h2 (e ▸ h3)
+               · omega
+             refine ⟨⟨⟨hcap1, ?_⟩, hbrk, ?_, ?_⟩, ?_⟩
+             · simp only []
+               exact ⟨b1, hbk1, rfl, rfl, by simp [upd_same]⟩
+             · intro b' h1 h2
+               simp [upd_ne _ _ _ _ (hb1ne b' h1 h2), hfr b' h1 h2]
+             · rintro b' ⟨i', hi'⟩
+               exact hown b' ⟨i', by rw [hb1]; exact hi'⟩
+             · intro t ht
+               cases ht
+               simp [hb1, hn]
+
+     · have hb' : A.begin.isSome = true ∧ r.n < A.cap := by
+         cases hA : A.begin with
+         | none => simp [hA] at hfast
+         | some q => simp [hA] at hfast; exact ⟨rfl, by omega⟩
+       obtain ⟨-, e1⟩ := reserve_noop M A r h (r.n + 1) fuel hb'.1 (by omega)
+       simp only [hfast, Bool.false_eq_true, if_false, e1, hcs]
+       obtain ⟨hcap, hrep⟩ := h
+       rw [hcs] at hrep
+       obtain ⟨b0, hbk, hb0, he, hblk⟩ := hrep
+       have hbb : b0 = b := by rw [hb0] at hb; cases hb; rfl
+       subst hbb
+       simp only [rd_at M b0 i cs hblk, he]
+       cases hrd : readCell cs i with
+       | none => simp [Sim]
+       | some v =>
+         simp only [con_at M b0 r.n cs v hblk]
+         cases hcon : construct cs r.n v with
+         | none => simp [Sim]
+         | some cs' =>
+           simp only [Option.map_some, padd, Sim]
+           refine ⟨⟨⟨hcap, ?_⟩, Nat.le_refl _, ?_, ?_⟩, ?_⟩
+           · simp only []
+             exact ⟨b0, hbk, hb0, rfl, by simp [upd_same]⟩
+           · intro b' h1 h2
+             have hne : b' ≠ b0 := fun e => h2 ⟨0, by rw [e]; exact hb0⟩
+             simp [upd_ne _ _ _ _ hne]
+           · rintro b' ⟨i', hi'⟩
+             exact Or.inl ⟨i', hi'⟩
+           · intro t ht
+             cases ht
+             simp [hb0]
+    )
 end Nstd.Seq
